@@ -584,6 +584,26 @@ async fn run_recall(tier: &str, out: &mut Vec<Value>) {
             let cold = load(&w.durable.borrow(), &w.cfg).await.expect("load");
             let e = recall_event(&w, &cold, &queries, "reloaded", &wl, json!({}));
             log.borrow_mut().push(e);
+            // the same workload persisted INCREMENTALLY: six batches, a complete flush after each, so that
+            // nodes persisted by an earlier flush gain reverse edges later and must be re-persisted; the
+            // reloaded graph keeps the floor of the live one
+            {
+                let mut v = World::new(w.cfg.clone(), seed);
+                let batch = n.div_ceil(6);
+                for id in 1..=(n as u64) {
+                    let (tag, vec) = v.fresh_vector();
+                    v.idx.insert_f32(id, vec.clone(), id).expect("insert");
+                    v.truth.insert(id, (tag, vec));
+                    v.held.insert(id, tag);
+                    if id as usize % batch == 0 || id as usize == n {
+                        let (_c, r) = flush_logged(&v, Fault::None, &Rc::new(RefCell::new(Vec::new())), 0, None).await;
+                        r.expect("flush");
+                    }
+                }
+                let cold = load(&v.durable.borrow(), &v.cfg).await.expect("load");
+                let e = recall_event(&v, &cold, &queries, "reloaded", &wl, json!({"incremental_flushes": 6}));
+                log.borrow_mut().push(e);
+            }
             // deletions (every 5th), then churn (remove ; flush without purge ; re-insert with a new vector)
             for id in (1..=n as u64).filter(|i| i % 5 == 0) {
                 w.idx.remove(id, 9);
